@@ -175,6 +175,78 @@ pub fn build(tier: Tier) -> Check<'static> {
         }));
     }
     {
+        // the mode is chosen by a flag of every entry point: file, string and two-step routes, with
+        // ignore_include off and on, must all run the incomplete parser when asked to
+        let lim = tier.pick(300, 1 << 30);
+        let mut table: Vec<(usize, usize)> = vec![];
+        for (si, seed) in seeds.iter().enumerate() {
+            if seed.text.len() >= lim || seed.text.contains("`include") {
+                continue;
+            }
+            if let Some((_, lay)) = crate::props::c01::layout_of(&seed.text, seed.is_lib()) {
+                for k in (0..lay.toks.len()).step_by(tier.pick(7, 2)) {
+                    table.push((si, k));
+                }
+            }
+        }
+        let table = Arc::new(table);
+        let s = seeds.clone();
+        c.parts.push(Part::new("entry-points", table.len() as u64, "cut seeds (quick: every 7th cut) through parse_sv / parse_lib (file), the _str and the two-step routes x ignore_include, allow_incomplete = true: never Error::Parse, the same tree as parse_*_str gives", move |i, acc| {
+            let (si, k) = table[i as usize];
+            let seed = &s[si];
+            let lib = seed.is_lib();
+            let Some((text, lay)) = crate::props::c01::layout_of(&seed.text, lib) else { return };
+            let cut = &text[..lay.toks[k].1];
+            let file = api::thread_dir("C15").join("ep_top.sv");
+            if std::fs::write(&file, cut).is_err() {
+                return;
+            }
+            let d = api::Defs::new();
+            let incs: Vec<std::path::PathBuf> = vec![];
+            let reference = match api::parse_simple(cut, lib, true) {
+                Ok(Ok((t, _))) => tree::skeleton_full(&t),
+                _ => return, // judged by the part seeds-truncated
+            };
+            acc.nontrivial += 1;
+            for ignore in [false, true] {
+                let two = match api::pp_str(cut, &file, &d, &incs, ignore, false) {
+                    Err(p) => Err(p),
+                    Ok(Err(e)) => Ok(Err(e)),
+                    Ok(Ok((pt, dd))) => api::guarded(|| if lib { sv_parser::parse_lib_pp(pt, dd, true) } else { sv_parser::parse_sv_pp(pt, dd, true) }),
+                };
+                let routes: Vec<(&str, api::ParseResult)> = vec![
+                    ("file", if lib { api::parse_lib_file(&file, &d, &incs, ignore, true) } else { api::parse_sv_file(&file, &d, &incs, ignore, true) }),
+                    ("string", if lib { api::parse_lib_str(cut, &file, &d, &incs, ignore, true) } else { api::parse_sv_str(cut, &file, &d, &incs, ignore, true) }),
+                    ("two-step", two),
+                ];
+                for (route, r) in routes {
+                    acc.transitions += 1;
+                    acc.traces += 1;
+                    let case = json!({"seed": seed.id, "cut_after_token": k, "route": route, "ignore_include": ignore, "lib": lib, "source": clip(cut, 2000)});
+                    match r {
+                        Ok(Ok((t, _))) => {
+                            if tree::skeleton_full(&t) != reference {
+                                acc.class("violation");
+                                acc.violation(None, case, format!("seed {} cut after token {}: the {} route (ignore_include = {}) yields another tree than parse_*_str in incomplete mode", seed.id, k, route, ignore));
+                            } else {
+                                acc.class("incomplete-tree");
+                            }
+                        }
+                        Ok(Err(e)) => {
+                            acc.class("violation");
+                            acc.violation(None, case, format!("seed {} cut after token {}: the {} route (ignore_include = {}) with allow_incomplete = true returns {}", seed.id, k, route, ignore, err_sig(&e)));
+                        }
+                        Err(pn) => {
+                            acc.class("violation");
+                            acc.violation(None, case, format!("panic {}", pn));
+                        }
+                    }
+                }
+            }
+            let _ = std::fs::remove_file(&file);
+        }));
+    }
+    {
         let sp = soup::sigma_t(0, tier.pick(3, 4));
         c.parts.push(Part::new("token-soup", sp.len(), "all token soups <= 3 (quick) / 4 (thorough)", move |i, acc| {
             one(acc, &sp.get(i), false, true, "token soup");
